@@ -12,10 +12,10 @@ import (
 
 // FileSeries is the series of operations a patch carries for one new file.
 type FileSeries struct {
-	Header  *pwr.SyncHeader
-	Ops     []*pwr.SyncOp       // rsync series
-	Bsdiff  *pwr.BsdiffHeader   // bsdiff series (nil for rsync)
-	Ctrls   []*bsdiff.Control
+	Header *pwr.SyncHeader
+	Ops    []*pwr.SyncOp     // rsync series
+	Bsdiff *pwr.BsdiffHeader // bsdiff series (nil for rsync)
+	Ctrls  []*bsdiff.Control
 }
 
 type ParsedPatch struct {
